@@ -42,6 +42,9 @@ pub enum KOp {
     Resend(RSpec),
     /// more(), then `nexts` calls of next(); `nested`: after the first item, try a new call
     More { conts: u8, fin: RSpec, nexts: u8, nested: bool },
+    /// like More, but the `err_at`-th intermediate reply carries an `error` member *and*
+    /// `continues: true`: an error item in the middle of a stream that goes on
+    MoreErr { conts: u8, err_at: u8, fin: RSpec, nexts: u8 },
 }
 
 #[derive(Clone, Debug, Serialize, Deserialize, PartialEq)]
@@ -218,8 +221,13 @@ fn run_task(net: NetRef, conn: Arc<shuttle::sync::RwLock<Connection>>, task: usi
                 };
                 rec(OpRec { task, op: oi, what: "oneway", item: 0, token: token.clone(), inv, ret, outcome });
             }
-            KOp::More { conts, fin, nexts, nested } => {
-                let mut mc = new_call(&token, json!({"conts": conts, "final": spec_json(fin)}));
+            KOp::More { .. } | KOp::MoreErr { .. } => {
+                let (conts, fin, nexts, nested, err_at) = match op {
+                    KOp::More { conts, fin, nexts, nested } => (conts, fin, nexts, nested, None),
+                    KOp::MoreErr { conts, err_at, fin, nexts } => (conts, fin, nexts, &false, Some(*err_at)),
+                    _ => unreachable!(),
+                };
+                let mut mc = new_call(&token, json!({"conts": conts, "final": spec_json(fin), "err_at": err_at}));
                 let inv = net.stamp(format!("inv {} more", token));
                 let started = mc.more().map(|_| ());
                 let ret = net.stamp(format!("ret {} more", token));
@@ -352,8 +360,14 @@ pub fn run_k(case: &KCase) -> (SimEnd, crate::sched::SimStats, KObs) {
                             outstanding = Some(tok.clone());
                             let conts = spec.get("conts").and_then(|x| x.as_u64()).unwrap_or(0);
                             let fin: RSpec = serde_json::from_value(spec["final"].clone()).unwrap_or(RSpec::Ok);
+                            let err_at = spec.get("err_at").and_then(|x| x.as_u64());
                             for i in 0..conts {
-                                let mut b = serde_json::to_vec(&json!({"continues": true, "parameters": {"token": tok, "i": i}})).unwrap();
+                                let fr = if err_at == Some(i) {
+                                    json!({"continues": true, "error": CUSTOM_ERR, "parameters": {"token": tok, "i": i}})
+                                } else {
+                                    json!({"continues": true, "parameters": {"token": tok, "i": i}})
+                                };
+                                let mut b = serde_json::to_vec(&fr).unwrap();
                                 b.push(0);
                                 pending.extend(b);
                             }
@@ -472,7 +486,10 @@ pub fn judge_k(case: &KCase, end: &SimEnd, o: &KObs) -> (Vec<Violation>, bool) {
             v.push(viol("C07", "deadlock", format!("client threads deadlocked: {}", t.chars().take(300).collect::<String>())));
             return (v, false);
         }
-        SimEnd::StepBound => return (v, true),
+        SimEnd::StepBound => {
+            v.push(viol("C07", "livelock", format!("the run never came to rest: {} scheduler steps without quiescence", crate::sched::MAX_STEPS)));
+            return (v, false);
+        }
     }
     v.extend(o.server_violations.iter().cloned());
     if o.hang {
@@ -554,7 +571,12 @@ pub fn judge_k(case: &KCase, end: &SimEnd, o: &KObs) -> (Vec<Violation>, bool) {
                         v.push(viol("C04", "client-oneway", format!("{} oneway() returned Ok but nothing reached the server", token)));
                     }
                 }
-                KOp::More { conts, fin, nexts, nested } => {
+                KOp::More { .. } | KOp::MoreErr { .. } => {
+                    let (conts, fin, nexts, nested, err_at) = match op {
+                        KOp::More { conts, fin, nexts, nested } => (conts, fin, nexts, nested, None),
+                        KOp::MoreErr { conts, err_at, fin, nexts } => (conts, fin, nexts, &false, Some(*err_at as usize)),
+                        _ => unreachable!(),
+                    };
                     if main.outcome != "Ok" {
                         if !(faulty && conn_level(&main.outcome)) {
                             v.push(viol("C05", "client-more-start", format!("{} more() returned {}", token, main.outcome)));
@@ -573,7 +595,10 @@ pub fn judge_k(case: &KCase, end: &SimEnd, o: &KObs) -> (Vec<Violation>, bool) {
                                 break;
                             }
                         };
-                        let want = if j < *conts as usize {
+                        let want = if j < *conts as usize && err_at == Some(j) {
+                            // an error item in mid-stream: reported as that error, and the stream goes on
+                            format!("E:Reply:{}:{}", CUSTOM_ERR, json!({"i": j, "token": token}))
+                        } else if j < *conts as usize {
                             format!("Ok:{}", json!({"i": j, "token": token}))
                         } else if j == *conts as usize {
                             expected_outcome(fin, &token)
@@ -809,6 +834,7 @@ fn op_alphabet() -> Vec<KOp> {
         KOp::More { conts: 2, fin: RSpec::Ok, nexts: 4, nested: false },
         KOp::More { conts: 2, fin: RSpec::Err { name: 4, params: 1 }, nexts: 4, nested: true },
         KOp::More { conts: 1, fin: RSpec::Ok, nexts: 3, nested: true },
+        KOp::MoreErr { conts: 2, err_at: 0, fin: RSpec::Ok, nexts: 4 },
     ]
 }
 
@@ -817,6 +843,15 @@ fn random_op(rng: &mut Rng, specs: &[RSpec], allow_abandon: bool) -> KOp {
         0..=3 => KOp::Call(rng.pick(specs).clone()),
         4 | 5 => KOp::Oneway,
         6 => KOp::Resend(rng.pick(specs).clone()),
+        7 => {
+            let conts = rng.range(1, 6) as u8;
+            KOp::MoreErr {
+                conts,
+                err_at: rng.range(0, conts as u64 - 1) as u8,
+                fin: rng.pick(specs).clone(),
+                nexts: conts + 1 + rng.range(0, 2) as u8,
+            }
+        }
         _ => {
             let conts = rng.range(0, 8) as u8;
             let nexts = if allow_abandon && rng.chance(1, 10) { rng.range(0, conts as u64) as u8 } else { conts + 1 + rng.range(0, 2) as u8 };
@@ -952,7 +987,7 @@ pub fn c07_plan(tier: Tier) -> Plan {
     }
     Plan {
         spaces,
-        rule: "K1: the real client against a scripted server on a simulated socket pair. (a) every reply object (with/without error; the four standard error names and a custom one, each with proper / absent / ill-typed / foreign parameters) through call() and as the final reply of a more() iteration; (b) one thread, every operation sequence over a 9-operation alphabet {call ok/std error/custom error, oneway, second send on the same object, more with 0..2 continues replies ending in a result or an error, new call while iterating} up to length 3 (quick) / 4 (thorough), complete; (c) 2..8 threads sharing one Arc<RwLock<Connection>>, 1..6 random operations each, under seeded schedules, with client short reads / short writes, replies released in random chunks, sometimes before quiescence; (d) the same with EINTR on client reads and the server closing in mid-stream (outcomes relaxed to: expected result or a connection-level error, never wrong data). Oracles: bytes at the server are whole requests, at most one non-oneway request in flight, a refused call leaves no bytes, every result carries its own token and the mapped error kind, ConnectionBusy only when another call's ownership interval (event sequence numbers) overlaps the attempt, second send = MethodCalledAlready, no hang. Distinct = (case, hash of the context-switch sequence).".into(),
+        rule: "K1: the real client against a scripted server on a simulated socket pair. (a) every reply object (with/without error; the four standard error names and a custom one, each with proper / absent / ill-typed / foreign parameters) through call() and as the final reply of a more() iteration; (b) one thread, every operation sequence over a 10-operation alphabet {call ok/std error/custom error, oneway, second send on the same object, more with 0..2 continues replies ending in a result or an error, an error item carrying continues:true in mid-stream, new call while iterating} up to length 3 (quick) / 4 (thorough), complete; (c) 2..8 threads sharing one Arc<RwLock<Connection>>, 1..6 random operations each, under seeded schedules, with client short reads / short writes, replies released in random chunks, sometimes before quiescence; (d) the same with EINTR on client reads and the server closing in mid-stream (outcomes relaxed to: expected result or a connection-level error, never wrong data). Oracles: bytes at the server are whole requests, at most one non-oneway request in flight, a refused call leaves no bytes, every result carries its own token and the mapped error kind, ConnectionBusy only when another call's ownership interval (event sequence numbers) overlaps the attempt, second send = MethodCalledAlready, no hang. Distinct = (case, hash of the context-switch sequence).".into(),
         level: "exploration",
         real: REAL_K.to_vec(),
         stub: STUB_K.to_vec(),
